@@ -36,12 +36,61 @@ def _apply(variant: dict, root: str):
     return overlay
 
 
+def apply_unified_diff(diff_text: str, root: str):
+    """in-memory application of a `git diff`: -> overlay {relpath: new source} or None when a hunk does not match this tree"""
+    import re
+    files = {}
+    cur = None
+    for line in diff_text.splitlines():
+        if line.startswith("+++ "):
+            path = line[4:].strip()
+            cur = path[2:] if path.startswith("b/") else path
+            files[cur] = []
+        elif line.startswith("@@") and cur is not None:
+            m = re.match(r"@@ -(\d+)(?:,(\d+))? \+(\d+)(?:,(\d+))? @@", line)
+            if not m:
+                return None
+            files[cur].append([int(m.group(1)), []])
+        elif cur is not None and files[cur] and line[:1] in (" ", "+", "-") and not line.startswith(("--- ", "+++ ")):
+            files[cur][-1][1].append(line)
+        elif cur is not None and files[cur] and line == "":
+            files[cur][-1][1].append(" ")
+    overlay = {}
+    for rel, hunks in files.items():
+        path = os.path.join(root, rel)
+        if not os.path.exists(path):
+            return None
+        with open(path, encoding="utf-8") as fh:
+            src = fh.read().split("\n")
+        out, pos = [], 0
+        for start, lines in hunks:
+            old = [l[1:] for l in lines if l[:1] in (" ", "-")]
+            # locate the hunk: at the recorded line or, failing that, at the unique place where its old side matches
+            at = start - 1
+            if src[at:at + len(old)] != old:
+                cands = [i for i in range(pos, len(src) - len(old) + 1) if src[i:i + len(old)] == old]
+                if len(cands) != 1:
+                    return None
+                at = cands[0]
+            if at < pos:
+                return None
+            out += src[pos:at]
+            out += [l[1:] for l in lines if l[:1] in (" ", "+")]
+            pos = at + len(old)
+        out += src[pos:]
+        overlay[rel] = "\n".join(out)
+    return overlay or None
+
+
 def _run_variant(args):
     prop, variant, root = args
     try:
         if variant.get("global"):
             from .twins import overlay as _global
             overlay = _global(root, variant["global"])
+        elif variant.get("diff"):
+            with open(variant["diff"], encoding="utf-8") as fh:
+                overlay = apply_unified_diff(fh.read(), root)
         else:
             overlay = _apply(variant, root)
         if overlay is None:
@@ -64,6 +113,17 @@ def _run_variant(args):
 def run(prop: str, mod, rep: Report):
     mutants: List[dict] = list(getattr(mod, "MUTANTS", []))
     twins: List[dict] = list(getattr(mod, "TWINS", []))
+    # the stored corpora: behaviour-preserving refactorings written by independent agents (must stay silent) and
+    # confirmed property-breaking changes (must be reported); entries whose hunks do not match this tree are skipped
+    import glob
+    import json as _json
+    here = os.path.dirname(os.path.dirname(os.path.abspath(__file__)))
+    for d in sorted(glob.glob(os.path.join(here, "refactors", "*"))):
+        if os.path.exists(os.path.join(d, "patch.diff")):
+            twins.append(dict(id="RF-" + os.path.basename(d), diff=os.path.join(d, "patch.diff"), what="stored refactoring"))
+    for d in sorted(glob.glob(os.path.join(here, "seeded", f"{prop}-*"))):
+        if os.path.exists(os.path.join(d, "patch.diff")):
+            mutants.append(dict(id="SEED-" + os.path.basename(d), diff=os.path.join(d, "patch.diff"), rule=None, what="stored seeded change", file=os.path.basename(d)))
     twins += [dict(id=f"{prop}-GLOBAL-A", **{"global": "A"}, what="whole package re-printed by ast.unparse"),
               dict(id=f"{prop}-GLOBAL-B", **{"global": "B"}, what="whole package re-printed with every function-local variable renamed")]
     R = rep.rule("SELFVAL", "seeded mutants are reported by the named rule; behaviour-preserving twins leave the verdict set unchanged")
